@@ -68,7 +68,9 @@ def time_limit(seconds):
         TIMEOUTS[0] += 1
         raise Timeout('no result after %.1fs' % seconds)
     old = signal.signal(signal.SIGALRM, handler)
-    signal.setitimer(signal.ITIMER_REAL, seconds)
+    # repeating: a Timeout raised while the interpreter is inside a destructor / weak-reference callback is swallowed
+    # ("Exception ignored in ..."), and a one-shot timer would then never fire again
+    signal.setitimer(signal.ITIMER_REAL, seconds, 1.0)
     try:
         yield
     finally:
